@@ -292,6 +292,8 @@ type Exec struct {
 	pendingDeferOf *Frame
 	specStart      int
 	divCache       map[[2]*Term][2]*Term
+
+	unwindIsViolation bool
 }
 
 type Snapshot struct {
@@ -327,6 +329,7 @@ func (ex *Exec) resetPath(prefix []int) {
 		ex.maxSteps = 5_000_000
 	}
 	ex.unwind = 64
+	ex.unwindIsViolation = false
 	ex.depth = 0
 	ex.maxDepth = 200
 	ex.intMode = false
@@ -1335,6 +1338,10 @@ func (ex *Exec) symbolicIf(fr *Frame, b *ssa.BasicBlock, x *ssa.If, c *Term) (*s
 	}
 	fr.symCount[x]++
 	if fr.symCount[x] > ex.unwind {
+		if ex.unwindIsViolation && ex.specDepth == 0 {
+			ex.recordViolation("hang", "terminates", fmt.Sprintf("loop condition decided more than %d times in one activation", ex.unwind), ex.posOf(x), nil)
+			panic(&pathAbort{Kind: "done", Msg: "termination bound exceeded"})
+		}
 		panic(&pathAbort{Kind: "unwind", Msg: fmt.Sprintf("symbolic branch at %s taken more than %d times in one activation", ex.posOf(x), ex.unwind)})
 	}
 	if ex.branch(c, "if at "+ex.posOf(x)) {
